@@ -40,12 +40,12 @@ PROPS['C06'] = dict(
 )
 PROPS['C15'] = dict(
   level='proof',
-  verus=[dict(unit='peephole', min_functions=18), dict(unit='bytecode', min_functions=5), dict(unit='lines', min_functions=1), dict(unit='pipeline', min_functions=1), dict(unit='parserd', min_functions=5), dict(unit='resolverd', min_functions=2), _findings_variant(['apply_stack_effects'])],
-  not_decided=['scanner and Compiler totality, all of the resolver except for_ / while_ (resolverd unit), all of the parser except its loop-depth bookkeeping (parserd unit: loop_, break_, continue_, function, lambda, fun_body); REPL continuation'],
+  verus=[dict(unit='peephole', min_functions=18), dict(unit='bytecode', min_functions=5), dict(unit='lines', min_functions=1), dict(unit='pipeline', min_functions=1), dict(unit='parserd', min_functions=5), dict(unit='resolverd', min_functions=2), dict(unit='scannerd', min_functions=9), _findings_variant(['apply_stack_effects'])],
+  not_decided=['Compiler totality, the scanner keyword trie (identifier_type: str slicing) and its constructor, all of the resolver except for_ / while_ (resolverd unit), all of the parser except its loop-depth bookkeeping (parserd unit: loop_, break_, continue_, function, lambda, fun_body); REPL continuation'],
 )
 PROPS['C18'] = dict(
   level='proof',
-  verus=[dict(unit='bytecode', min_functions=10), dict(unit='peephole', min_functions=8), dict(unit='lines', min_functions=6), dict(unit='pipeline', min_functions=1), dict(unit='unwind', min_functions=2)],
+  verus=[dict(unit='bytecode', min_functions=10), dict(unit='peephole', min_functions=8), dict(unit='lines', min_functions=6), dict(unit='pipeline', min_functions=1), dict(unit='unwind', min_functions=2), dict(unit='scannerd', min_functions=6)],
   not_decided=['the text of the traceback (frame_line / error_backtrace strings), exit-status mapping in Vm::run, exit(n)'],
 )
 PROPS['C04'] = dict(
